@@ -1164,9 +1164,10 @@ impl Model {
             // a plain and a shared subscription could both explain this forward
             let plain_qos_match = self.sessions[&client].subs[hits[0]].qos == p.qos;
             let shared_qos_match = shared.iter().any(|i| self.sessions[&client].subs[*i].qos == p.qos);
-            if ids.is_empty() && plain_qos_match == shared_qos_match {
+            // (subscription identifiers have already narrowed the candidates: whatever is left shares them)
+            if plain_qos_match == shared_qos_match {
                 self.conns[conn].ambiguous = true;
-            } else if ids.is_empty() && shared_qos_match && !plain_qos_match {
+            } else if shared_qos_match && !plain_qos_match {
                 hits.clear();
             }
         }
